@@ -76,7 +76,9 @@ class C13(F.Spec):
             put("email", rng.choice([b"user%d@example.org\0" % rng.randint(0, 99), b"a@b.pl\0",
                                      b"firstname.lastname%d@example.com\0" % rng.randint(0, 99),
                                      b"a.very.long.mailbox.name%d@mail.example.org\0" % rng.randint(0, 9)]))
-            put("ssid", b"net%d\0" % rng.randint(0, 99)); put("pwd", b"pw%d\0" % rng.randint(0, 9999))
+            put("ssid", rng.choice([b"net%d\0" % rng.randint(0, 99), b"a-network-name-of-31-characters\0"]))
+            # (Wi-Fi passwords up to the 63 characters WPA2 allows: longer than the network-name field)
+            put("pwd", rng.choice([b"pw%d\0" % rng.randint(0, 9999), b"p" * rng.choice([31, 32, 33, 40, 63]) + b"\0"]))
             put("t1", rb(rng, 8)); put("t2", rb(rng, 8))
             ops.append("flashfill 00")
             ops.append("flashset 0 " + bytes(im).hex())
@@ -291,8 +293,10 @@ class C13(F.Spec):
             new = bytes(rng.choice(b"QRSTUVWXYZ") for _ in range(rng.randint(1, 20)))
             svr = bytes(rng.choice(b"xyz.") for _ in range(rng.randint(1, 30)))
             fault = rng.choice([None, (1, 0), (1, 1), (2, 0), (2, 1), (3, 0), (1, 3), (2, 3), (2, 4)])
-            first = b"POST / HTTP/1.1\r\n\r\nsid=" + old + b"&svr=old.example&eml=a%40b.c&pro=0&led=1"
-            second = b"POST / HTTP/1.1\r\n\r\nsid=" + new + b"&svr=" + svr + b"&eml=c%40d.e&pro=0&led=0"
+            # (every kind of setting differs between the two forms: texts, the LED switch, a numeric field)
+            first = b"POST / HTTP/1.1\r\n\r\nsid=" + old + b"&svr=old.example&eml=a%40b.c&pro=0&led=" + rng.choice([b"0", b"1"])
+            second = b"POST / HTTP/1.1\r\n\r\nsid=" + new + b"&svr=" + svr + b"&eml=c%40d.e&pro=0&led=" + rng.choice([b"0", b"1", b"1"]) + \
+                rng.choice([b"", b"&upd=1", b"&btn1=1"])
             ops = ["conn", "seg " + first.hex(), "conn", "show"]
             if fault:
                 ops.append("fault %d %d" % fault)
